@@ -18,7 +18,8 @@ import copy
 from .model import real_body, u
 
 PURE_FUNCS = {"set", "frozenset", "len", "dict", "list", "tuple", "sorted", "int", "str", "bool", "isinstance", "range", "enumerate", "zip",
-              "min", "max", "sum", "any", "all", "reversed", "iter"}
+              "min", "max", "sum", "any", "all", "reversed", "iter", "issubclass", "hasattr", "type", "abs", "float", "callable", "divmod", "round",
+              "ord", "chr", "bytes", "repr", "id"}
 PURE_METHODS = {"values", "items", "keys", "get", "copy", "groups", "group", "startswith", "endswith", "join", "index", "count"}
 
 
@@ -650,6 +651,34 @@ def normalise_loops(stmts: list[ast.stmt]) -> list[ast.stmt]:
     return rec(stmts)
 
 
+def rename_param_rebinds(stmts: list[ast.stmt]) -> list[ast.stmt]:
+    """x = f(x) at the top level of a function body, x assigned nowhere else (so the x read on the right is the parameter):
+    the new value gets its own name x_1 in that statement and everything after it.  `config = config or Default()` and
+    `new_config = config or Default()` then read the same."""
+    stmts = list(stmts)
+    stores: dict[str, int] = {}
+    for s_ in stmts:
+        for n in ast.walk(s_):
+            if isinstance(n, ast.Name) and not isinstance(n.ctx, ast.Load):
+                stores[n.id] = stores.get(n.id, 0) + 1
+            elif isinstance(n, ast.arg):
+                stores[n.arg] = stores.get(n.arg, 0) + 1      # parameters of nested functions / lambdas shadow
+    for i, s_ in enumerate(stmts):
+        if isinstance(s_, ast.Assign) and len(s_.targets) == 1 and isinstance(s_.targets[0], ast.Name):
+            x = s_.targets[0].id
+            if stores.get(x) != 1 or not any(isinstance(n, ast.Name) and n.id == x and isinstance(n.ctx, ast.Load) for n in ast.walk(s_.value)):
+                continue
+            if any(isinstance(n, (ast.FunctionDef, ast.AsyncFunctionDef, ast.Lambda)) for b_ in stmts[:i + 1] for n in ast.walk(b_)):
+                continue
+            new = f"{x}_1"
+            if new in stores or any(isinstance(n, ast.Name) and n.id == new for b_ in stmts for n in ast.walk(b_)):
+                continue
+            s_.targets[0] = ast.Name(id=new, ctx=ast.Store())
+            stmts[i + 1:] = [_Rename({x: new}).visit(b_) for b_ in stmts[i + 1:]]
+            return rename_param_rebinds(stmts)
+    return stmts
+
+
 def merge_display_building(stmts: list[ast.stmt]) -> list[ast.stmt]:
     """d = {}; d["a"] = x; d["b"] = y   ->   d = {"a": x, "b": y}          l = []; l.append(x); l.append(y)   ->   l = [x, y]
     (the stores follow the empty display directly, keys are distinct constants, the values do not read the container)"""
@@ -669,6 +698,30 @@ def merge_display_building(stmts: list[ast.stmt]) -> list[ast.stmt]:
             s.target.id if isinstance(s, ast.AnnAssign) and isinstance(s.target, ast.Name) and s.value is not None else None)
         v = getattr(s, "value", None)
         is_dict = isinstance(v, ast.Dict) and not v.keys or (isinstance(v, ast.Call) and u(v.func) == "dict" and not v.args and not v.keywords)
+        # a copy of a mapping that is then extended: d = dict(X); d[k] = v   ->   d = {**dict(X), k: v}
+        based = isinstance(v, ast.Dict) and bool(v.keys) or (isinstance(v, ast.Call) and u(v.func) == "dict" and len(v.args) == 1 and not v.keywords)
+        if name and based:
+            j = i + 1
+            ks = list(v.keys) if isinstance(v, ast.Dict) else [None]
+            vs = list(v.values) if isinstance(v, ast.Dict) else [v]
+            n0 = len(vs)
+            while j < len(stmts):
+                x = stmts[j]
+                if isinstance(x, ast.Assign) and len(x.targets) == 1 and isinstance(x.targets[0], ast.Subscript) and isinstance(x.targets[0].value, ast.Name) \
+                        and x.targets[0].value.id == name and is_pure(x.targets[0].slice) \
+                        and not any(isinstance(n, ast.Name) and n.id == name for n in list(ast.walk(x.value)) + list(ast.walk(x.targets[0].slice))):
+                    ks.append(x.targets[0].slice)
+                    vs.append(x.value)
+                    j += 1
+                else:
+                    break
+            if len(vs) > n0:
+                new = ast.Assign(targets=[ast.Name(id=name, ctx=ast.Store())], value=ast.Dict(keys=ks, values=vs))
+                ast.copy_location(new, s)
+                ast.fix_missing_locations(new)
+                out.append(new)
+                i = j
+                continue
         is_list = isinstance(v, ast.List) and not v.elts or (isinstance(v, ast.Call) and u(v.func) == "list" and not v.args and not v.keywords)
         if name and (is_dict or is_list):
             j = i + 1
